@@ -11,7 +11,7 @@ LEVEL_TEXT = 'Coq theorems about finish (idempotence, one end message) + corresp
 LEVEL_NOTE = 'Trusted: Coq kernel; hand-written model Model/Core.v + Model/Prog.v tied to /repo by per-run correspondence on generated logging programs (real control flow, real threads for hand-offs); Python harness. Extractor-failure recursion (F2) was repaired in /repo (fix: commit); the model is of the repaired code.'
 
 FAMILIES = [
-    progs.program_family("programs", oracles.oracle_c03, 120, 2500, deep=dict(depth=6), **dict(p_reserved=0.2, p_finish_inside=0.2, fault=0.4, registry_rate=0.9, p_fault_ser=0.0, p_raise=0.3, p_finish_again=0.15, sr=0.3)),
+    progs.program_family("programs", oracles.oracle_c03, 120, 2500, deep=dict(depth=6), **dict(p_reserved=0.2, p_finish_inside=0.2, fault=0.4, registry_rate=0.9, p_fault_ser=0.0, p_raise=0.3, p_finish_again=0.15, sr=0.3, p_handler=0.1)),
 ]
 
 
